@@ -465,8 +465,8 @@ class C16Engine(Engine):
                                    "weight": r.choice([0.05, 0.1, 0.5]), "max_num_iter": r.randint(1, 4), "eps": 1e-6,
                                    "omega": r.choice([0.5, 1.0]), "regularization": r.choice([0.5, 1.0, 2.0])}
         if "w1" in alphabet:
-            ls = r.choice(["direct", "direct", "amg"])
-            form = "pressure" if ls == "amg" else r.choice(["pressure", "full"])
+            ls = r.choice(["direct", "direct", "amg", "amg", "cg"])
+            form = "pressure" if ls != "direct" else r.choice(["pressure", "full"])
             dim = r.choice([1, 2, 2])
             shape = [r.randint(3, 6)] if dim == 1 else [r.randint(2, 4), r.randint(2, 4)]
             cfg = {"method": r.choice(["newton", "bregman", "bregman-adaptive"]), "formulation": form, "linear_solver": ls,
@@ -476,11 +476,15 @@ class C16Engine(Engine):
                    "pair": {"kind": "dense", "id": 0}, "tol_residual": 1e-300, "tol_increment": 1e-300, "tol_distance": 1e-300}
             if cfg["aa_depth"] == 0:
                 cfg["aa_restart"] = None
+            if r.random() < 0.35:
+                # stopping criteria that can actually end the iteration before num_iter (relative to the call's own history)
+                cfg.update(num_iter=r.randint(6, 14), tol_residual=r.choice([1e-1, 1.0]), tol_increment=r.choice([1e-1, 1e-2]),
+                           tol_distance=r.choice([1e-2, 1e-3, 1e-4]))
             if r.random() < 0.5:
                 cfg["L"] = r.choice([0.5, 2.0, 10.0])
             if cfg["method"] == "bregman-adaptive":
                 cfg["update_every"] = r.choice([1, 2])
-            if ls == "amg":
+            if ls != "direct":
                 cfg["max_coarse"] = r.choice([2, 3, 4])
                 cfg["ls_options"] = r.choice([{}, {"atol": 1e-10, "rtol": 1e-10}])
             objs[f"{cname}.w0"] = {"cls": "W1", "cfg": cfg}
@@ -552,7 +556,10 @@ class C16Engine(Engine):
         if k == "W1BAD":
             return {"op": "W1BAD", "obj": f"{cname}.w0", "pair": {"kind": "dense", "id": r.randint(0, 9999)}}
         if k == "W1":
-            return {"op": "W1", "obj": f"{cname}.w0", "pair": {"kind": r.choice(["dense", "dense", "compact"]), "id": r.randint(0, 9999)}}
+            pair = {"kind": r.choice(["dense", "dense", "compact"]), "id": r.randint(0, 9999)}
+            if r.random() < 0.3:
+                pair["scale"] = r.choice([0.125, 8.0, 64.0])
+            return {"op": "W1", "obj": f"{cname}.w0", "pair": pair}
         raise HarnessError(k)
 
     def generate(self, seed: int, tier: str) -> dict:
@@ -700,8 +707,7 @@ class C16Engine(Engine):
                                                  timeout=self.run_timeout_s)
                     out.counters["fault:rng-skew-reference"] += 1
                     if rexc2 is None:
-                        # distance only: Anderson mixing can amplify solver-tolerance differences of the flux
-                        ok2, how2 = same(ref2[0], ref[0], 1e-3)
+                        ok2, how2 = same(ref2, ref, 1e-11)
                         if isinstance(how2, float):
                             out.extra["max_rng_dependence"] = max(out.extra.get("max_rng_dependence", 0.0), how2)
                             if how2 > 1e-6:
